@@ -6,7 +6,8 @@ _FILES = {"zz_verif_c14_common_test.go": "c14/common_e2e.go", "zz_verif_c14_gen_
 SPEC = Spec(
     pid="C14",
     lean_modules=["OtelVerif.Props.C14"],
-    translators=[go_translator("opaquemethods", "OtelVerif/Gen/Opaque.lean"), go_translator("squashhook", "OtelVerif/Gen/SquashHook.lean")],
+    translators=[go_translator("opaquemethods", "OtelVerif/Gen/Opaque.lean"), go_translator("squashhook", "OtelVerif/Gen/SquashHook.lean"),
+                 go_translator("opaquecensus", "OtelVerif/Gen/OpaqueCensus.lean")],
     harnesses=[
         Harness(name="fmt", module="internal/e2e", pkg="internal/e2e", common=False,
                 files=dict(_FILES, **{"zz_verif_c14_fmt_test.go": "c14/fmt_test.go"}),
@@ -27,7 +28,7 @@ SPEC = Spec(
         # monitor only: every otelcorecol config type with injected secrets through zap field encoders, slog, fmt, json, yaml, confmap.Marshal
         Harness(name="builtin_all", module="cmd/otelcorecol", pkg="cmd/otelcorecol",
                 files={"zz_verif_c14_builtin_all_test.go": "c14/builtin_all_test.go"},
-                test="TestVerifC14BuiltinAll", driver=None, n={"quick": 1, "thorough": 1}, timeout_s=600),
+                test="TestVerifC14BuiltinAll", driver="drv_c14", n={"quick": 1, "thorough": 1}, timeout_s=600),
     ],
     rule="fmt: for the real configopaque.String and 10 twin types of string kind with other method sets, every verb (all ASCII runes "
          "that are not flag characters + non-ASCII samples) x flag sets (9 quick / all 32 thorough) x width x precision {none,0,3} "
@@ -37,7 +38,14 @@ SPEC = Spec(
          "enc: generated value trees (tags, omitempty, squash, '-', unexported, opaque/int/string keys, nil pointers/maps/slices, "
          "arrays, any) through confmap.Conf.Marshal + ToStringMap for two secret environments; non-trivial = an opaque leaf sits "
          "below a map, slice, pointer, interface or nested struct. Built-in configurations holding opaque fields are marshalled, "
-         "printed and logged as corpus cases. distinct = distinct op sequences (sha1 of the op lines).",
+         "printed and logged as corpus cases. "
+         "builtin_all: one case per otelcorecol factory: the REAL default configuration (secrets injected into every opaque field / headers map, nil pointers allocated) is "
+         "reflected into the operand-tree notation and rendered as pointer and as value with %v %+v %#v %d %x %s %q %t for two secret environments refilled in place; "
+         "`obs dep` is compared exactly with the fmt model `pa` on that tree; plus every zap/slog/fmt/json/yaml/confmap renderer (substring oracle), the type probe, "
+         "use-then-render, the reflected opaque-typed fields against the regenerated census, and live use (HTTP round trip with secret request/response/Host headers, gRPC "
+         "call with secret metadata, zPages extension start, PEM loaders with undecodable secret material, the collector's real logger in console and json encoding) "
+         "under a recording logger: the text must arrive where it is meant to go and appear in no log entry or error. "
+         "distinct = distinct op sequences (sha1 of the op lines).",
     trusted_base=[
         "Lean 4.33.0 kernel; axioms per theorem listed under axioms_per_theorem (subset of propext, Classical.choice, Quot.sound)",
         "translator translators/cmd/opaquemethods (go/ast): translates every method body of configopaque.String into MExpr (receiver | constant | Go-quote | concat); exits 2 on any other shape",
@@ -47,6 +55,10 @@ SPEC = Spec(
         "table of which interface encoding/json, yaml.v3, encoding/gob and zap consult for a value / map key of string kind (pathConsult), checked differentially",
         "hand-written model of confmap/internal/mapstructure/encoder.go + the hook chain of confmap.encoderConfig, tied by exact differential on generated value trees",
         "MExpr.goQuote is strconv.Quote restricted to text that needs no escaping (exact for the marker)",
+        "translator translators/cmd/opaquecensus (go/ast, no type checker): census of every struct field whose type mentions configopaque.String (shape, key, exported), of every "
+        "string(x)/[]byte(x) conversion of an opaque value, of every call handed a still-typed opaque value and of every log/format call handed a value NAMED cfg/config/conf; opaque "
+        "expressions are found by a local analysis (census field selectors, typed parameters/variables, range/index/:= of these) in the directories that import configopaque or a package "
+        "declaring a census field; the field list is tied to reflection over the built-in configuration types by exact differential (`op cfield`), the site lists are reviewed-list alarms",
     ],
     assumptions=[
         "'stored unchanged' is checked byte for byte also for secrets with leading/trailing white space (blanks, tabs, newline/PEM, CRLF, NBSP, U+3000, white space only) through confmap.Unmarshal "
@@ -60,7 +72,12 @@ SPEC = Spec(
         "multi-entry maps with plain keys (headers) are generated and printed in fmtsort order",
         "gob omits a struct field holding the zero value before it consults the type's marshalers: an EMPTY opaque field is left out (emptiness only, like omitempty)",
         "marshalling paths are tied by 8 secret pairs per run (fixed classes incl. the empty secret, the marker itself, a 1200-byte one, + 3 drawn per run) x 2-4 shapes per path",
-        "configuration structs keep opaque strings in exported fields (fmt cannot call methods on unexported fields: counted in the evidence, outside the property's containers)",
+        "configuration structs keep opaque strings in exported fields (fmt cannot call methods on unexported fields: counted in the evidence, outside the property's containers); "
+        "regenerated: the only unexported opaque-typed field of the repository is confighttp.headerRoundTripper.headers (C14_census_unexported_reviewed), not a configuration struct",
+        "C14_fmt_pointer_verbs_noninterference covers pointers to structs below the top level (the shape of the built-in configurations) only for the verbs fmtPointer accepts "
+        "(v d x X b o, hence %v %+v %#v); under %s %q %t ... such a pointer still leaks (open finding nested-pointer-badverb-raw)",
+        "the reflected operand tree of a built-in configuration renders a value whose type has its own fmt methods (component.ID, time.Duration, Level ...) as an opaque-free leaf; a "
+        "type with fmt methods that HOLDS an opaque value is counted (stat tree_fmt_method_type_holding_opaque, none on /repo) and not modelled",
         "omitempty on an opaque field reveals whether the secret is empty (C14_encode_omitempty_reveals_emptiness); the non-interference theorem is stated for environments that agree on emptiness",
         "types with their own confmap.Marshaler / yaml tags without mapstructure tags are inside the encoder model as the struct-level hook nodes GV.sh marshaler|yaml "
         "(generator types C14Marsh = Marshal re-marshals a map, C14MarshMerge = Marshal merges raw values, C14Yaml = yaml tags only): what such a type's own "
